@@ -110,7 +110,20 @@ US_SAMPLES = (0, 1, 999, 1000, 1001, 499999, 500000, 999000, 999999)
 S_FOR_US = (0, 59, 60, 3599, 3600, 3601, 86399)
 
 
-def fold_formatter(report, fn, outcomes, evaluator, reference, label, params_by_path, clause="1"):
+def seconds_domain(tier):
+    if tier == "thorough":
+        return list(range(86400)), "td.seconds 0..86399 exhaustively"
+    pts = set(range(0, 86400, 61))
+    for k in range(0, 1441):
+        for d in (-1, 0, 1):
+            v = k * 60 + d
+            if 0 <= v < 86400:
+                pts.add(v)
+    return sorted(pts), ("td.seconds: every minute boundary +-1 s and every 61st second (quick tier; the thorough "
+                         "tier folds all 86 400 values)")
+
+
+def fold_formatter(report, fn, outcomes, evaluator, reference, label, params_by_path, clause="1", tier="quick"):
     """R-RADIX: every (seconds, microseconds) of the abstract timedelta must
     satisfy exactly one path of the formatter, and that path must print the
     reference text."""
@@ -154,7 +167,8 @@ def fold_formatter(report, fn, outcomes, evaluator, reference, label, params_by_
             got = render(hits[0], env, {k: (params[k] or "") for k in params})
             if got != want:
                 bad.append({"seconds": S, "microseconds": u, "printed": got, "required": want})
-    for S in SECONDS_DOMAIN:
+    dom, dom_text = seconds_domain(tier)
+    for S in dom:
         one(S, 0)
         if len(bad) > 5:
             break
@@ -163,8 +177,8 @@ def fold_formatter(report, fn, outcomes, evaluator, reference, label, params_by_
             one(S, u)
     report.check(not bad, "R-RADIX", fn, label,
                  {"templates": [describe(t) for _, t in paths],
-                  "domain": "td.seconds 0..86399 exhaustively (microseconds 0) + 7 second values x 9 microsecond "
-                            "values around the millisecond and second boundaries",
+                  "domain": dom_text + " (microseconds 0) + 7 second values x 9 microsecond values around the "
+                            "millisecond and second boundaries", "exhaustive": tier == "thorough",
                   "evaluations": n, "first_mismatches": bad[:4]}, clause)
     report.count("formatter_evaluations", n)
 
@@ -179,7 +193,7 @@ def shared_formatter(ctx, report, ev):
         sep = params.get("msec_separator") or "."
         return f"{S // 3600:02d}:{S // 60 % 60:02d}:{S % 60:02d}{sep}{u // 1000:03d}"
     fold_formatter(report, fn, outs, e, ref, "hh:mm:ss<sep>mmm with carries into seconds, minutes, hours",
-                   [{"msec_separator": ","}, {"msec_separator": None}, {"msec_separator": "."}])
+                   [{"msec_separator": ","}, {"msec_separator": None}, {"msec_separator": "."}], tier=ctx.tier)
     # format_start / format_end hand the caption's own start / end to the formatter
     for name, attr in (("format_start", "start"), ("format_end", "end")):
         f2 = ctx.index.get_function("pycaption/base.py", f"Caption.{name}")
@@ -209,7 +223,8 @@ def webvtt_formatter(ctx, report, ev):
         hh, mm, ss = S // 3600, S // 60 % 60, S % 60
         s = f"{mm:02d}:{ss:02d}.{u // 1000:03d}"
         return f"{hh:02d}:{s}" if hh else s
-    fold_formatter(report, fn, outs, e, ref, "[hh:]mm:ss.ttt, hours printed exactly when non-zero", [{}])
+    fold_formatter(report, fn, outs, e, ref, "[hh:]mm:ss.ttt, hours printed exactly when non-zero", [{}],
+                   tier=ctx.tier)
     alpha = R.Alphabet([chr(i) for i in range(0x20, 0x7F)])
     D = R.cset("0123456789")
     printed = R.cat(R.opt(R.cat(R.rep(D, 2, 2), R.lit(":"))), R.rep(D, 2, 2), R.lit(":"), R.rep(D, 2, 2), R.lit("."),
